@@ -833,21 +833,32 @@ where
         let index = (hash as usize) & *mask;
 
         // Linear probing to find slot
+        let mut free_slot = None;
         for i in 0..capacity {
             let probe_index = (index + i) & *mask;
             let entry = &mut entries[probe_index];
 
-            if entry.hash == 0 || entry.hash == u64::MAX {
-                // Empty slot or tombstone, insert here
-                entry.key = key;
-                entry.value = value;
-                entry.hash = hash;
-                return Ok(None);
+            if entry.hash == 0 {
+                // Empty slot ends the probe chain: the key is not present
+                free_slot.get_or_insert(probe_index);
+                break;
+            } else if entry.hash == u64::MAX {
+                // Tombstone: remember the first one, but the key may still follow it
+                free_slot.get_or_insert(probe_index);
             } else if entry.hash == hash && entry.key == key {
                 // Key exists, update value
                 let old_value = std::mem::replace(&mut entry.value, value);
                 return Ok(Some(old_value));
             }
+        }
+
+        if let Some(slot) = free_slot {
+            // Key not present: insert into the first tombstone, else the empty slot
+            let entry = &mut entries[slot];
+            entry.key = key;
+            entry.value = value;
+            entry.hash = hash;
+            return Ok(None);
         }
 
         // Table is full, need to resize
